@@ -24,7 +24,7 @@ WATCHDOG = 15
 
 
 def strategy(tier, flags):
-    cfgs = gen_cfg.cfg_desc(var_pools=["std", "std", "long", "fresh"], term_pools=["ab", "ab", "abc", "shared"],
+    cfgs = gen_cfg.cfg_desc(var_pools=["std", "std", "long", "fresh", "int_str"], term_pools=["ab", "ab", "abc", "shared", "int_str"],
                             max_prods=7, max_body=3)
     from props.c14 import ll1_like
     return st.one_of(
